@@ -193,10 +193,12 @@ def case_term(c, out):
     if c[0] == "sim":
         _, ann, nw, ops = c
         so = so[4:]
-        if len(so) != len(ops) + nw:
+        ops = list(ops) + [("odm", i) for i in range(nw)]
+        if len(so) != len(ops):
             return None
         terms = []
         for o, (res, ds, wsig, _) in zip(ops, so):
+            rep = 0
             if o[0] == "W":
                 if res != "W 0":
                     return None
@@ -208,16 +210,13 @@ def case_term(c, out):
             elif o[0] == "adv":
                 t = "SAdv %s" % cz(o[1])
             else:
-                t = "SQuery"
-            terms.append("(%s, mkObs %s %s)" % (t, pairs(ds), pairs(wsig)))
-        fin = []
-        for res, ds, wsig, _ in so[len(ops):]:
-            p = res.split()
-            if p[0] != "odm" or p[1].startswith("E") or p[1] == "STUCK":
-                return None
-            fin.append(cz(int(p[1])))
-            terms.append("(SQuery, mkObs %s %s)" % (pairs(ds), pairs(wsig)))
-        return "CSim %d %s %s" % (ann * MS, clist(terms), clist(fin))
+                p = res.split()
+                if p[0] != "odm" or p[1].startswith("E") or p[1] == "STUCK":
+                    return None
+                t = "SOdm %d" % o[1]
+                rep = int(p[1])
+            terms.append("(%s, mkObs %s %s %s)" % (t, pairs(ds), pairs(wsig), cz(rep)))
+        return "CSim %d %s" % (ann * MS, clist(terms))
     _, mbt, poisoned, pre = c
     res, ds, _, _ = so[-1]
     p = res.split()
